@@ -289,7 +289,7 @@ def units():
           for lo, hi in (((1, 2), (3, 3)) if la else ((0, 2), (3, 3), (4, 4))):
             for tokv, tname in ((0, 'asc'), (1, 'desc'), (2, 'coarse')):
                 bnd('bnd.ss.merge.%s%d-%d_%s.%s' % ('large' if la else 'inline', lo, hi, 'large' if lb else 'inline', tname), 'bs_smallset_merge',
-                    [SSn + '__merge__r' + SSn, FFn + '__op_call__rE_c'], ['C04', 'C05', 'C02'], tier=('quick' if tokv == 0 else 'thorough'), vimpl='VectorImpl_E_X_u8_t_Unc', bound=8, extra_defs=
+                    [SSn + '__merge__r' + SSn, FFn + '__op_call__rE_c'], ['C04', 'C05', 'C02'], tier=('quick' if tokv == 0 else 'thorough'), vimpl='VectorImpl_E_X_u8_t_Unc', bound=(10 if tokv == 2 else 8), extra_defs=
                     {'BSS_T': 'struct ' + SSn, 'BSS_N': '4', 'BVEC_T': 'struct StdVectorBase_E_A_u32', 'BSS_MERGE(a, b)': '%s__merge__r%s(a, b)' % (SSn, SSn),
                      'FINDFUNCTOR_T': 'struct ' + FFn, 'FINDFUNCTOR_CALL(fp, e)': FFn + '__op_call__rE_c(fp, e)', 'BSS_LA': str(la), 'BSS_LB': str(lb), 'BSS_TOK': str(tokv), 'BSS_NA_LO': str(lo), 'BSS_NA_HI': str(hi)})
                 us[-1]['stubbed'] = []      # the inline part is a FixedCapacityVector: its real code is used
